@@ -2607,7 +2607,9 @@ pub fn c13(ix: &Index, prop: &'static str, sched: bool) -> Vec<Viol> {
                             out.push(v(prop, "span-copies", format!("adapter#{}: span {:?} delivered {} times, expected {}", ai, sp.name, rs.len(), want)));
                         }
                     }
-                } else if sp.finish_t.is_some() && !h.cancelable {
+                } else if sp.finish_t.is_some() && (!h.cancelable || (!sched && sp.is_root && sp.cancel_t.is_empty() && sp.items.iter().any(|i| i.sampled) && !h.limit_hit)) {
+                    // (cancelable: a root that the program never cancelled is delivered once it
+                    // finished, whether the adapter completed or was dropped in whatever state)
                     out.push(v(prop, "span-never-delivered", format!("adapter#{}: span {:?} finished at {:?} but was never delivered", ai, sp.name, sp.finish_t)));
                 }
             }
